@@ -221,6 +221,9 @@ def build_source(statics, entries, cfg):
         # directly followed by the separator (or the end of the list)
         spell = lambda var: ('string:S%s;;' % var[3:]) if var.startswith('lit') else var
         src += ' tal:attributes="%s"' % '; '.join(('%s %s' % (e[0], spell(e[1]))) if e[0] is not None else e[1] for e in entries)
+    if len(src) % 5 == 0:
+        # the element also has an error handler (never needed here): its start tag is the same
+        src += ' tal:on-error="string:E"'
     return src + '>x</p>'
 
 
@@ -398,7 +401,7 @@ def layer_random(ctx, n):
                 entries.append((None, rng.choice(sorted(DICTS))))
                 ndict += 1
                 continue
-            nm = rng.choice(NAMES + ['new1', 'new2'])
+            nm = rng.choice(NAMES + ['new1', 'new2', '(click)', 'on(load)', '[prop]', '@event'])
             spelled = CASEVAR.get(nm, nm) if rng.random() < .3 else nm
             if nm.lower() in used:
                 # the same name again is only legal in a different spelling (later entry overrides earlier)
